@@ -28,15 +28,20 @@
         holds => the constraint clauses of the reference semantics hold
         (Random/Frag1Cons.v, with the C17 lemmas of Check/MismatchProofs.v);
       - any number of trials >= 1 (full rounds plus a leftover round).
-    Hence [_partial].  Missing: weighted levels / crossing weights (the unranker
-    is then [compute_jth_prefix_of_permutations_with_copies]), crossed
+    Hence [_partial].  [C04_accept_sound_frag2] extends it to [Frag.frag2] =
+    frag1 plus WEIGHTS: weighted levels of the crossed factors and a crossing
+    weight > 0 ([fl_sizes] = sum of the combination weights; a round is then a
+    permutation of the multiset of combinations, unranked by the memoised
+    [compute_jth_prefix_of_permutations_with_copies], proved with the C13
+    refinement theorems of Comb/StackProofs.v / SessionProofs.v).
+    Missing: crossed
     within-trial derived factors with uncrossed sources, LatinSquare, preambles /
     complex windows / several crossings (where the crossing itself is checked by
     rejection).  Outside the fragment the property is decided per run by the
     search of harness/props/c05.py and the C04 harness (exhausted RandomGen vs.
     oracle). *)
 From Coq Require Import List.
-From SP Require Import Design.Flat Design.Sem Random.Enum Random.Frag Random.FragSem Random.Frag1Thms
+From SP Require Import Design.Flat Design.Sem Random.Enum Random.Frag Random.FragSem Random.Frag2Thms Random.Frag1Thms
   Random.Frag0Thms Random.Frag0Example.
 
 Theorem C04_accept_sound_partial : forall (fb : flat), frag1 fb = true ->
@@ -59,3 +64,21 @@ Example C04_example_rejection :
   frag1 ex1_flat = true /\ frag0 ex1_flat = false /\ length (keys_of ex1_flat) = 32 /\
   length (accepted_keys ex1_flat) = 12 /\ check_sound ex1_flat = true.
 Proof. split; [apply ex1_frag|]. split; [apply ex1_frag|]. split; [apply ex1_keys|]. split; [apply ex1_keys | apply ex1_checks]. Qed.
+
+(** with weights (fragment [Frag.frag2], which contains [frag1]) *)
+Theorem C04_accept_sound_frag2 : forall (fb : flat), frag2 fb = true ->
+  forall (k : key) (cand : candidate),
+  In k (keys_of fb) -> decode_key fb k = Some cand -> accepts fb cand = true ->
+  valid_b (code_sem fb) (tseq_of_run fb cand) = true.
+Proof. exact f2_accept_sound. Qed.
+Print Assumptions C04_accept_sound_frag2.
+
+Theorem C04_frag1_in_frag2 : forall (fb : flat), frag1 fb = true -> frag2 fb = true.
+Proof. exact frag1_frag2. Qed.
+Print Assumptions C04_frag1_in_frag2.
+
+(** a weighted level (a: 2, b: 1), AtMostKInARow and a leftover trial: 96 keys, 32 accepted *)
+Example C04_example_weighted :
+  frag2 ex3_flat = true /\ frag1 ex3_flat = false /\ length (keys_of ex3_flat) = 96 /\
+  length (accepted_keys ex3_flat) = 32 /\ check_sound ex3_flat = true.
+Proof. split; [apply ex3_frag|]. split; [apply ex3_frag|]. split; [apply ex3_keys|]. split; [apply ex3_keys | apply ex3_checks]. Qed.
